@@ -108,6 +108,8 @@ struct Stats {
     events: u64,
     chars: u64,
     max_ticks_per_char_x100: u64,
+    max_work_per_char_x100: u64,
+    work: u64,
     rechecks: u64,
     mismatches: u64,
     generators: BTreeMap<String, u64>,
@@ -130,6 +132,8 @@ impl Default for Stats {
             events: 0,
             chars: 0,
             max_ticks_per_char_x100: 0,
+            max_work_per_char_x100: 0,
+            work: 0,
             rechecks: 0,
             mismatches: 0,
             generators: BTreeMap::new(),
@@ -161,6 +165,8 @@ impl Stats {
         self.events += o.events;
         self.chars += o.chars;
         self.max_ticks_per_char_x100 = self.max_ticks_per_char_x100.max(o.max_ticks_per_char_x100);
+        self.max_work_per_char_x100 = self.max_work_per_char_x100.max(o.max_work_per_char_x100);
+        self.work += o.work;
         self.rechecks += o.rechecks;
         self.mismatches += o.mismatches;
         for (k, v) in o.generators {
@@ -295,7 +301,10 @@ pub fn run_batch(cfg: Config) -> i32 {
                         if out.sub_runs <= 1 || ctx.cfg.prop == "C01" {
                             let r = out.ticks * 100 / (out.n_chars + 16);
                             st.max_ticks_per_char_x100 = st.max_ticks_per_char_x100.max(r);
+                            let rw = out.work * 100 / (out.n_chars + 16);
+                            st.max_work_per_char_x100 = st.max_work_per_char_x100.max(rw);
                         }
+                        st.work += out.work;
                         *st.generators.entry(case.gen.clone()).or_default() += 1;
                         if ctx.cfg.prop == "C01" || ctx.cfg.prop == "C17" {
                             *st.environments.entry(case.input.describe()).or_default() += 1;
@@ -610,7 +619,9 @@ fn evidence_json(cfg: &Config, st: &Stats, total: u64, exhaustive: u64, exhausti
     cov.set("events_total", J::int(st.events));
     cov.set("chars_offered_total", J::int(st.chars));
     cov.set("max_ticks_per_char_observed", J::Float(st.max_ticks_per_char_x100 as f64 / 100.0));
-    cov.set("work_bound", J::str("ticks <= 200*(chars+16), events <= 8*(chars+4)"));
+    cov.set("max_work_ticks_per_char_observed", J::Float(st.max_work_per_char_x100 as f64 / 100.0));
+    cov.set("work_ticks_total", J::int(st.work));
+    cov.set("work_bound", J::str("seam ticks <= 200*(chars+16); library-internal loop iterations (guarded work hooks) <= 150*(chars+16); events <= 8*(chars+4)"));
     cov.set("fault_counts", faults);
     cov.set("probes", probes);
     cov.set("probes_at_zero", J::Arr(zero));
